@@ -321,6 +321,23 @@ class Fn:
             res[h] |= body
         return dict(res)
 
+    def loop_havoc(self):
+        """header -> [(target loc, [tracked locs it covers])] for every location defined inside the loop"""
+        if getattr(self, '_havoc', None) is not None:
+            return self._havoc
+        self.reaching()
+        res = {}
+        for h, body in self.loops().items():
+            targets = {}
+            for d in self.defs():
+                if d.kind != 'entry' and d.bid in body:
+                    strong_on, weak_on = self._eff[d.id]
+                    cover = set(strong_on) | set(weak_on)
+                    targets.setdefault(d.target, set()).update(cover)
+            res[h] = [(T, sorted(c, key=lambda x: (len(x), str(x)))) for T, c in sorted(targets.items(), key=lambda x: (len(x[0]), str(x[0])))]
+        self._havoc = res
+        return res
+
     def can_reach(self, a, b, avoid=()):
         """is there a normal-edge path a ->* b (length>=0) avoiding blocks in `avoid`"""
         return b in self.reachable(a, avoid)
